@@ -329,7 +329,9 @@ def _file_may_match(
                     isinstance(v, float) and v != v for v in expr.value
                 ):
                     has_possible_match = any(
-                        file_min <= v <= file_max for v in expr.value
+                        file_min <= c <= file_max
+                        for v in expr.value
+                        for c in _in_literal_candidates(v)
                     )
                     if not has_possible_match:
                         return False
@@ -339,6 +341,25 @@ def _file_may_match(
             continue
 
     return True  # File may contain matches
+
+
+def _in_literal_candidates(value: Any) -> Any:
+    """Values a literal of an IN list can take when pyarrow evaluates is_in.
+
+    For a 32-bit float column pyarrow casts the value set to float32, so the
+    literal 0.1 matches the stored 0.10000000149011612 although 0.1 itself lies
+    below that file's lower bound. Pruning must therefore also consider the
+    literal's float32 rounding (harmless for other column types: it can only
+    make a file "may match").
+    """
+    if isinstance(value, float):
+        import struct
+
+        try:
+            return (value, struct.unpack("f", struct.pack("f", value))[0])
+        except (OverflowError, struct.error):
+            return (value,)
+    return (value,)
 
 
 def get_column_id_by_name(schema: "Schema", column_name: str) -> Optional[int]:
